@@ -1102,8 +1102,14 @@ func (p *prover) sumRule(u, w ssa.Value, b term, c int64, blk *ssa.BasicBlock, d
 		if tq != tu || tp != b {
 			continue
 		}
-		// 0 <= P - q  (difference not wrapped)
-		if !p.prove(tq, tp, op-oq, blk, depth+1) {
+		// the difference must not have wrapped: for unsigned operands that needs q <= P; for signed ones with
+		// P a length (0..MaxInt) it is enough that q is not negative
+		_, uns, _ := basicInfo(sub.Type())
+		if uns || !tp.isLen {
+			if !p.prove(tq, tp, op-oq, blk, depth+1) {
+				continue
+			}
+		} else if !p.prove(zeroT, tq, oq, blk, depth+1) && !p.prove(tq, tp, op-oq, blk, depth+1) {
 			continue
 		}
 		// u + w = (tu+ou) + (w0+ow') ; w0 <= (tp+op) - (tq+oq) + k  =>  u + w <= tp + op + (ou-oq) + ow + k
@@ -2278,7 +2284,11 @@ func (p *prover) variableBound(v ssa.Value) bool {
 	}
 	switch x := t.v.(type) {
 	case *ssa.Phi:
-		return !phiInCycle(x)
+		_ = x
+		return true
+	case *ssa.Parameter:
+		_, _, isInt := basicInfo(x.Type())
+		return isInt
 	case *ssa.Call, *ssa.Extract, *ssa.BinOp, *ssa.Convert:
 		return true
 	}
